@@ -74,6 +74,11 @@ func caseC17(c *Ctx) {
 	if c.Case%2 == 0 && !a.Failed() {
 		b, err := json.Marshal(d)
 		var back ecs.EntityDump
+		if c.Case%4 == 0 {
+			// decoded into a variable that held another dump before (a program that loads one save after another)
+			back = helperDump(c.R, 4+c.R.Intn(30)).d
+			a.Cov.N["json_decode_into_reused_dump"]++
+		}
 		if err != nil || json.Unmarshal(b, &back) != nil {
 			a.fail("json.dump", "dump does not survive JSON: %v", err)
 		} else {
